@@ -815,5 +815,268 @@ theorem addUnclaimed_adds (binary : Bool) (props : List (Bytes × SType)) (built
   simp [hany, hb]
 
 
+/-! ### the vector claim scan `buildVec` -/
+
+/-- the inner loop of `scanProp`: the component blocks for one property -/
+def scanInner (pname : Bytes) (pty : SType) (force : Nat → Bool) (l : List (Bytes × Nat)) (s : Scan) : Scan :=
+  l.foldl (fun acc x => scanComponent pname pty (force x.2) acc x.2 x.1) s
+
+theorem scanInner_no_match (pname : Bytes) (pty : SType) (force : Nat → Bool) :
+    ∀ (l : List (Bytes × Nat)) (s : Scan), (∀ x ∈ l, x.1 ≠ pname) → scanInner pname pty force l s = s := by
+  intro l
+  induction l with
+  | nil => intro s _; rfl
+  | cons x l ih =>
+    intro s h
+    have hx : pname ≠ x.1 := fun e => h x (by simp) e.symm
+    simp only [scanInner, List.foldl_cons, scanComponent, hx, ne_eq, not_false_eq_true, if_true]
+    exact ih s (fun y hy => h y (by simp [hy]))
+
+theorem mem_zipIdx_fst {β : Type} : ∀ (l : List β) (k : Nat) (x : β × Nat), x ∈ l.zipIdx k → x.1 ∈ l := by
+  intro l
+  induction l with
+  | nil => intro k x h; simp at h
+  | cons a l ih =>
+    intro k x h
+    simp only [List.zipIdx_cons, List.mem_cons] at h
+    rcases h with rfl | h
+    · simp
+    · simp [ih _ _ h]
+
+/-- the property matches exactly component `pre.length` -/
+theorem scanInner_match (n : Bytes) (t : SType) (force : Nat → Bool) (pre post : List Bytes)
+    (hpre : n ∉ pre) (hpost : n ∉ post) (s : Scan) (hty : s.ty = none ∨ s.ty = some t) :
+    scanInner n t force ((pre ++ n :: post).zipIdx) s
+      = { s with offs := s.offs.set pre.length (some s.pos), ty := some t } := by
+  have hz : (pre ++ n :: post).zipIdx = pre.zipIdx ++ (n, pre.length) :: post.zipIdx (pre.length + 1) := by
+    simp [List.zipIdx_append, List.zipIdx_cons]
+  simp only [scanInner, hz, List.foldl_append, List.foldl_cons]
+  have h1 := scanInner_no_match n t force pre.zipIdx s (fun x hx e => hpre (e ▸ mem_zipIdx_fst _ _ x hx))
+  simp only [scanInner] at h1
+  rw [h1]
+  have hstep : scanComponent n t (force pre.length) s pre.length n
+      = { s with offs := s.offs.set pre.length (some s.pos), ty := some t } := by
+    rcases hty with h | h <;> cases hf : force pre.length <;> simp [scanComponent, h, hf]
+  rw [hstep]
+  have h2 := scanInner_no_match n t force (post.zipIdx (pre.length + 1))
+    { s with offs := s.offs.set pre.length (some s.pos), ty := some t }
+    (fun x hx e => hpost (e ▸ mem_zipIdx_fst _ _ x hx))
+  simpa only [scanInner] using h2
+
+
+def forceW (binary : Bool) (names : List Bytes) (k : Nat) : Bool := binary && decide (names.length = 4) && decide (k = 3)
+
+theorem scanProp_eq (binary : Bool) (names : List Bytes) (s : Scan) (p : Bytes × SType) :
+    scanProp binary names s p =
+      { scanInner p.1 p.2 (forceW binary names) names.zipIdx s with
+        pos := (scanInner p.1 p.2 (forceW binary names) names.zipIdx s).pos + stride binary p.2 } := by
+  rfl
+
+theorem scanProp_no_match (binary : Bool) (names : List Bytes) (s : Scan) (p : Bytes × SType) (h : p.1 ∉ names) :
+    scanProp binary names s p = { s with pos := s.pos + stride binary p.2 } := by
+  have hi := scanInner_no_match p.1 p.2 (forceW binary names) names.zipIdx s
+    (fun x hx e => h (by rw [← e]; exact mem_zipIdx_fst _ _ x hx))
+  rw [scanProp_eq, hi]
+
+theorem nodup_take_drop (names : List Bytes) (hn : names.Nodup) (k : Nat) (hk : k < names.length) :
+    names = names.take k ++ names[k] :: names.drop (k + 1) ∧ names[k] ∉ names.take k ∧ names[k] ∉ names.drop (k + 1) := by
+  have hs : names = names.take k ++ names[k] :: names.drop (k + 1) := by simp
+  refine ⟨hs, ?_, ?_⟩
+  · intro hmem
+    obtain ⟨j, hj, hje⟩ := List.getElem_of_mem hmem
+    have hj' : j < k := by simp at hj; omega
+    have := (List.pairwise_iff_getElem.mp hn) j k (by omega) hk hj'
+    simp [List.getElem_take] at hje
+    exact this hje
+  · intro hmem
+    obtain ⟨j, hj, hje⟩ := List.getElem_of_mem hmem
+    simp at hj
+    have := (List.pairwise_iff_getElem.mp hn) k (k + 1 + j) hk (by omega) (by omega)
+    simp at hje
+    exact this hje.symm
+
+theorem scanProp_match (binary : Bool) (names : List Bytes) (hn : names.Nodup) (s : Scan) (t : SType)
+    (k : Nat) (hk : k < names.length) (hty : s.ty = none ∨ s.ty = some t) :
+    scanProp binary names s (names[k], t) =
+      { offs := s.offs.set k (some s.pos), ty := some t, pos := s.pos + stride binary t } := by
+  obtain ⟨hs, h1, h2⟩ := nodup_take_drop names hn k hk
+  rw [scanProp_eq]
+  have hlen : (names.take k).length = k := by simp; omega
+  have := scanInner_match names[k] t (forceW binary names) (names.take k) (names.drop (k + 1)) h1 h2 s hty
+  rw [← hs, hlen] at this
+  simp [this]
+
+
+theorem locOf_succ (binary : Bool) (p : Bytes × SType) (ps : List (Bytes × SType)) (j : Nat) :
+    locOf binary (p :: ps) (j + 1) = stride binary p.2 + locOf binary ps j := by
+  simp [locOf]
+
+/-- invariant of the scan over the element's properties -/
+theorem scan_fold (binary : Bool) (names : List Bytes) (hn : names.Nodup) (t : SType) :
+    ∀ (ps : List (Bytes × SType)) (s : Scan), (ps.map (·.1)).Nodup → (∀ p ∈ ps, p.1 ∈ names → p.2 = t) →
+      (s.ty = none ∨ s.ty = some t) → s.offs.length = names.length →
+      let s' := ps.foldl (scanProp binary names) s
+      (s'.ty = none ∨ s'.ty = some t) ∧ s'.offs.length = names.length ∧
+      (∀ k (hk : k < names.length),
+        (∀ i (hi : i < ps.length), ps[i].1 = names[k] → s'.offs[k]? = some (some (s.pos + locOf binary ps i))) ∧
+        ((∀ p ∈ ps, p.1 ≠ names[k]) → s'.offs[k]? = s.offs[k]?)) ∧
+      ((∃ p ∈ ps, p.1 ∈ names) → s'.ty = some t) ∧ ((∀ p ∈ ps, p.1 ∉ names) → s'.ty = s.ty) := by
+  intro ps
+  induction ps with
+  | nil =>
+    intro s _ _ hty hlen
+    refine ⟨hty, hlen, fun k hk => ⟨fun i hi => by simp at hi, fun _ => rfl⟩, fun ⟨p, hp, _⟩ => by simp at hp, fun _ => rfl⟩
+  | cons p ps ih =>
+    intro s hnd huni hty hlen
+    have hc := List.nodup_cons.mp (by simpa using hnd : (p.1 :: ps.map (·.1)).Nodup)
+    have hnd' : (ps.map (·.1)).Nodup := hc.2
+    have hpnot : ∀ q ∈ ps, q.1 ≠ p.1 := fun q hq e => hc.1 (e ▸ List.mem_map_of_mem hq)
+    have huni' : ∀ q ∈ ps, q.1 ∈ names → q.2 = t := fun q hq => huni q (by simp [hq])
+    simp only [List.foldl_cons]
+    by_cases hmem : p.1 ∈ names
+    · -- the property is component k0, of type t
+      obtain ⟨k0, hk0, hk0e⟩ := List.getElem_of_mem hmem
+      have hpt : p.2 = t := huni p (by simp) hmem
+      have hp : p = (names[k0], t) := by cases p; simp_all
+      have hs1 := scanProp_match binary names hn s t k0 hk0 hty
+      rw [hp, hs1]
+      obtain ⟨h1, h2, h3, h4, h5⟩ := ih ⟨s.offs.set k0 (some s.pos), some t, s.pos + stride binary t⟩ hnd' huni'
+        (.inr rfl) (by simpa using hlen)
+      have hnone : ∀ q ∈ ps, q.1 ≠ names[k0] := fun q hq => by rw [hk0e]; exact hpnot q hq
+      have htyfin : (ps.foldl (scanProp binary names) ⟨s.offs.set k0 (some s.pos), some t, s.pos + stride binary t⟩).ty = some t := by
+        by_cases hex : ∃ q ∈ ps, q.1 ∈ names
+        · exact h4 hex
+        · have := h5 (fun q hq hqm => hex ⟨q, hq, hqm⟩)
+          simpa using this
+      refine ⟨.inr htyfin, h2, ?_, fun _ => htyfin, fun hall => absurd (List.getElem_mem hk0) (hall (names[k0], t) (by simp))⟩
+      intro k hk
+      refine ⟨?_, ?_⟩
+      · intro i hi hname
+        cases i with
+        | zero =>
+          simp at hname
+          have hkk : k = k0 := by
+            by_cases hne : k = k0
+            · exact hne
+            · exfalso
+              rcases Nat.lt_or_gt_of_ne hne with hlt | hgt
+              · exact (List.pairwise_iff_getElem.mp hn) k k0 hk hk0 hlt hname.symm
+              · exact (List.pairwise_iff_getElem.mp hn) k0 k hk0 hk hgt hname
+          subst hkk
+          have := (h3 k hk).2 hnone
+          rw [this]
+          simp [locOf, List.getElem?_set, hlen, hk]
+        | succ j =>
+          have := (h3 k hk).1 j (by simpa using hi) (by simpa using hname)
+          rw [this, locOf_succ]
+          simp [Nat.add_assoc]
+      · intro hall
+        have hk_ne : k ≠ k0 := by
+          intro e; subst e
+          exact hall (names[k], t) (by simp) rfl
+        have := (h3 k hk).2 (fun q hq => hall q (by simp [hq]))
+        rw [this]
+        simp [List.getElem?_set, Ne.symm hk_ne]
+    · -- not a component of this reader
+      rw [scanProp_no_match binary names s p hmem]
+      obtain ⟨h1, h2, h3, h4, h5⟩ := ih ⟨s.offs, s.ty, s.pos + stride binary p.2⟩ hnd' huni' hty hlen
+      refine ⟨h1, h2, ?_, ?_, ?_⟩
+      · intro k hk
+        refine ⟨?_, ?_⟩
+        · intro i hi hname
+          cases i with
+          | zero => simp at hname; exact absurd (hname ▸ List.getElem_mem hk) hmem
+          | succ j =>
+            have := (h3 k hk).1 j (by simpa using hi) (by simpa using hname)
+            rw [this, locOf_succ]
+            simp [Nat.add_assoc]
+        · intro hall
+          exact (h3 k hk).2 (fun q hq => hall q (by simp [hq]))
+      · rintro ⟨q, hq, hqm⟩
+        simp at hq
+        rcases hq with rfl | hq
+        · exact absurd hqm hmem
+        · exact h4 ⟨q, hq, hqm⟩
+      · intro hall
+        exact h5 (fun q hq => hall q (by simp [hq]))
+
+
+theorem allSome_of {β : Type} : ∀ (l : List (Option β)) (g : List β), l.length = g.length →
+    (∀ k (hk : k < g.length), l[k]? = some (some g[k])) → allSome l = some g := by
+  intro l
+  induction l with
+  | nil => intro g hl _; cases g <;> simp_all [allSome]
+  | cons x l ih =>
+    intro g hl h
+    cases g with
+    | nil => simp at hl
+    | cons y g =>
+      have h0 := h 0 (by simp)
+      simp at h0
+      subst h0
+      have := ih g (by simpa using hl) (fun k hk => by have := h (k + 1) (by simpa using hk); simpa [List.getElem_cons_succ] using this)
+      simp [allSome, this]
+
+theorem eq_of_fst_eq_of_nodup (props : List (Bytes × SType)) (hnd : (props.map (·.1)).Nodup) (p q : Bytes × SType)
+    (hp : p ∈ props) (hq : q ∈ props) (h : p.1 = q.1) : p = q := by
+  obtain ⟨i, hi, rfl⟩ := List.getElem_of_mem hp
+  obtain ⟨j, hj, rfl⟩ := List.getElem_of_mem hq
+  by_cases hij : i = j
+  · subst hij; rfl
+  · exfalso
+    rcases Nat.lt_or_gt_of_ne hij with hlt | hgt
+    · exact (List.pairwise_iff_getElem.mp hnd) i j (by simpa using hi) (by simpa using hj) hlt (by simpa using h)
+    · exact (List.pairwise_iff_getElem.mp hnd) j i (by simpa using hj) (by simpa using hi) hgt (by simpa using h.symm)
+
+/-- THE VECTOR CLAIM SCAN (`Vector{2,3,4}PropertyReader.build{Binary,Ascii}`), any property order: if the component
+names are distinct, the header's property names are distinct and component `k` is the header property at position
+`idx[k]`, all of one scalar type `t`, then the reader is built, decodes with type `t`, and the location of component
+`k` is the sum of the strides of the properties before position `idx[k]` in HEADER order. -/
+theorem buildVec_spec (binary : Bool) (props : List (Bytes × SType)) (attr : Bytes) (names : List Bytes)
+    (hn : names.Nodup) (hne : names ≠ []) (hnd : (props.map (·.1)).Nodup) (t : SType) (idx : List Nat)
+    (hlen : idx.length = names.length)
+    (hidx : ∀ k (hk : k < names.length), ∃ hi : idx[k]'(by omega) < props.length, props[idx[k]'(by omega)] = (names[k], t)) :
+    buildVec binary props attr names = some ⟨attr, names, idx.map (locOf binary props), some t⟩ := by
+  have huni : ∀ p ∈ props, p.1 ∈ names → p.2 = t := by
+    intro p hp hm
+    obtain ⟨k, hk, hke⟩ := List.getElem_of_mem hm
+    obtain ⟨hi, hpe⟩ := hidx k hk
+    have := eq_of_fst_eq_of_nodup props hnd p _ hp (List.getElem_mem hi) (by rw [hpe]; exact hke.symm)
+    rw [this, hpe]
+  obtain ⟨h1, h2, h3, h4, _⟩ := scan_fold binary names hn t props ⟨names.map (fun _ => none), none, 0⟩ hnd huni (.inl rfl) (by simp)
+  have hty : (props.foldl (scanProp binary names) ⟨names.map (fun _ => none), none, 0⟩).ty = some t := by
+    apply h4
+    have h0 : 0 < names.length := by cases names <;> simp_all
+    obtain ⟨hi, hpe⟩ := hidx 0 h0
+    exact ⟨_, List.getElem_mem hi, by rw [hpe]; exact List.getElem_mem h0⟩
+  have hoffs : allSome (props.foldl (scanProp binary names) ⟨names.map (fun _ => none), none, 0⟩).offs
+      = some (idx.map (locOf binary props)) := by
+    apply allSome_of
+    · simp [h2, hlen]
+    · intro k hk
+      have hk' : k < names.length := by simpa [hlen] using hk
+      obtain ⟨hi, hpe⟩ := hidx k hk'
+      have := (h3 k hk').1 (idx[k]'(by omega)) hi (by rw [hpe])
+      simpa using this
+  simp only [buildVec, hoffs, hty]
+
+example : buildVec true [(nm "z", .float), (nm "q", .uchar), (nm "x", .float), (nm "y", .float)] (nm "Position")
+    [nm "x", nm "y", nm "z"] = some ⟨nm "Position", [nm "x", nm "y", nm "z"], [5, 9, 0], some .float⟩ := by decide
+
+
+/-- … hence (binary) the built vector reader is `Located` at the header positions `idx`: `ply_spec_vertex_block` applies -/
+theorem buildVec_located (props : List (Bytes × SType)) (attr : Bytes) (names : List Bytes)
+    (hn : names.Nodup) (hne : names ≠ []) (hnd : (props.map (·.1)).Nodup) (t : SType) (idx : List Nat)
+    (hlen : idx.length = names.length)
+    (hidx : ∀ k (hk : k < names.length), ∃ hi : idx[k]'(by omega) < props.length, props[idx[k]'(by omega)] = (names[k], t)) :
+    ∃ b, buildVec true props attr names = some b ∧ b.attr = attr ∧ b.names = names ∧ Located (props.map (·.2)) b idx := by
+  refine ⟨_, buildVec_spec true props attr names hn hne hnd t idx hlen hidx, rfl, rfl, ?_, ?_⟩
+  · refine ⟨t, rfl, ?_⟩
+    intro i hi
+    obtain ⟨k, hk, rfl⟩ := List.getElem_of_mem hi
+    obtain ⟨h1, h2⟩ := hidx k (by omega)
+    exact ⟨by simpa using h1, by simp [h2]⟩
+  · simp [locOf_binary]
+
 end PlyLemmas
 end PolyVerif
